@@ -143,7 +143,15 @@ class Machine(object):
                     kwargs[an] = regs[av]
                 else:
                     kwargs[an] = av
+            # the function the step records its side constraints on, and how many the documentation says it records
+            target = kwargs.get("f") or kwargs.get("ind") or kwargs.get("mirror_map")
+            expected = {"inexact_gradient": 1, "inexact_proximal": 1, "epsilon_subgradient": 1,
+                        "exact_linesearch": 1 + len(kwargs.get("directions", []))}.get(op["kind"], 0)
+            n_before = len(target.list_of_constraints) if target is not None else 0
             outs = fn(**kwargs)
+            if target is not None and expected:
+                self.declared.append({"kind": "step_constraints", "step": op["kind"], "expected": expected,
+                                      "added": list(target.list_of_constraints[n_before:]), "op": op})
             for nm, o in zip(op["outs"], outs):
                 if nm:
                     regs[nm] = o
